@@ -487,6 +487,12 @@ def connect_fresh(E):
     E.path.ghost['now'] = I(now)
     sock.attrs['_last_server_keepalive'] = aio.mk_datetime(E, E.fresh_int('stale'))
     old_sc, old_q = sock.attrs['_stream_control'], sock.attrs['_send_queue']
+    # a request retained by the lease mechanism of the previous connection, and a lease it had been granted
+    old_rq = E.call(E.import_module('asyncio').getattr(E, 'Queue'), [])
+    E.call(E.getattr(old_rq, 'put_nowait'), [SOpaque('frame', 'stale-request-of-the-old-connection')])
+    sock.attrs['_request_queue'] = old_rq
+    old_lease = E.call(E.lookup('rsocket/lease.py::DefinedLease'), [7])
+    sock.attrs['_requester_lease'] = old_lease
     nt = aio.new_future(E)
     sock.attrs['_next_transport'] = nt
     transport = SOpaque('transport', 'next-transport')
@@ -504,9 +510,11 @@ def connect_fresh(E):
     P('reconnect:stream_ids_restart_from_1', first == 1)
     q = sock.attrs['_send_queue']
     P('reconnect:fresh_send_queue_with_SETUP_only', q is not old_q and len(q.attrs['_queue']) == 1 and is_frame(q.attrs['_queue'][0], 'SetupFrame'))
-    P('reconnect:fresh_retention_queue_and_reassembly_cache', sock.attrs['_request_queue'].attrs['_queue'] == []
-      and sock.attrs['_frame_fragment_cache'].attrs['_frames_by_stream_id'] == {})
+    P('reconnect:nothing_retained_for_the_old_connection_is_carried_over[retention queue replaced by an empty one]',
+      sock.attrs['_request_queue'] is not old_rq and M_len(sock.attrs['_request_queue']) == 0)
+    P('reconnect:fresh_reassembly_cache', sock.attrs['_frame_fragment_cache'].attrs['_frames_by_stream_id'] == {})
     lease = sock.attrs['_requester_lease']
+    P('reconnect:the_lease_of_the_old_connection_is_discarded', lease is not old_lease)
     P('reconnect:initial_lease', (lease.cls.name == 'DefinedLease' and lease.attrs['maximum_request_count'] == 0) if sock.attrs['_honor_lease']
       else lease.cls.name == 'NullLease')
     P('reconnect:receiver_and_sender_restarted', sorted(tasks) == ['_receiver', '_sender'] and sock.attrs['_is_closing'] is False)
@@ -516,6 +524,12 @@ def connect_fresh(E):
     P('reconnect:keepalive_clock_restarted', I(sock.attrs['_last_server_keepalive'].attrs['t']) == I(now))
     P('reconnect:not_connecting_any_more', sock.attrs['_connecting'] is False)
     P('reconnect:responder_lease_reset_and_endpoint_open', sock.attrs['_responder_lease'].cls.name == 'NullLease' and sock.attrs['_is_closing'] is False)
+
+
+def M_len(q):
+    """number of retained items, whatever container holds them"""
+    a = q.attrs
+    return len(a['_queue']) if '_queue' in a else len(a['items'])
 
 
 RCL = CLIENT + '._reconnect_listener'
